@@ -290,6 +290,22 @@ theorem rdict_add_lookup (d e r : RDict K) (h : d.add e = .ok r) (k : String) :
             simp only [List.lookup_cons, hkb]
             exact ih tl ht
 
+/-- T5b.  scaling a dictionary scales every entry. -/
+theorem rdict_mul_lookup (d : RDict K) (c : K) (k : String) :
+    (d.mul c).lookup k = (d.lookup k).map (fun x => x.mul c) := by
+  induction d with
+  | nil => rfl
+  | cons kv rest ih =>
+    obtain ⟨k0, v⟩ := kv
+    have ih' : List.lookup k (List.map (fun kv => (kv.1, kv.2.mul c)) rest)
+        = Option.map (fun x => x.mul c) (List.lookup k rest) := ih
+    simp only [RDict.mul, List.map_cons, List.lookup_cons]
+    cases (k == k0)
+    · exact ih'
+    · rfl
+
+/-! ## saving and loading -/
+
 omit [Field K] in
 theorem collectEnergies_asDict (r : ERes K) (d : Dict K) (h : r.asDict = .ok d) (n : Nat)
     (hn : n ≤ r.energies.length) : collectEnergies d n = .ok (r.energies.take n) := by
